@@ -124,6 +124,15 @@ CLAIMED = {
   note="Assumed: yaml.v3 fills the struct by tag and reports unknown keys in strict mode; hasher objects are immutable after construction. Not decided: the schedule clause (signals at any point, any number): reload runs "
        "inside the single dispatcher goroutine (call-graph fact), which is the basis for 'requests in flight see entirely old or entirely new'. Resource exhaustion from huge memory/cost values is outside the model.",
   design="3 C18"),
+ "C19": dict(
+  text="Deductive proof of the safety clauses: add/update/set-admin send a change notification exactly when the store call succeeded (remove always), checked in both directions with a ghost counter; "
+       "runAllHooks (loop invariant over the directory listing) starts a process exactly for the non-hidden entries that are regular files or symlinks with an executable bit, only if the hooks directory is a "
+       "directory that is not world-writable, with the path Join(dir, Clean('/'+name)) and the current store; runHook starts exactly one process with the single argument 'update', the environment plus "
+       "WHAWTY_AUTH_STORE=<store> and no stdio; the rate limiter (ghost code on receive/timer/round events) keeps the invariant 'notifications received since the start of the last round exist only while "
+       "pending > 1 and the timer is armed', so no notification is left without a round at or after it or an armed timer that will start one.",
+  note="Not decided: that the armed timer fires (liveness), kill-after-one-minute, 'never delaying the agent', and the 'at most two rounds per interval' count. Assumed: fewer than 2^64 notifications per "
+       "interval; os/exec and time.Timer contracts; FileMode bit layout.",
+  design="3 C19"),
 }
 
 NOT_APPLICABLE = {
